@@ -193,6 +193,7 @@ Want(T, q, arg, filt) ==
          LET ps == Parts(T, "B") IN DictOf(Idx(T.N), LAMBDA k : LET sm == SumParts(T, ps, {k}) IN [t \in 1 .. T.I.n |-> T.I.S * T.I.d[t] - sm[t]])
     [] q = "regularization_term" -> RegTerm(T)
     [] q = "regularization_weights_mapper_dict" -> DictOf(SelObjs(T, "AbstractMapper"), LAMBDA k : T.I.objs[k].wts)
+    [] q = "regularization_weights_from" -> [k \in 1 .. T.N |-> T.I.objs[k].wts]      \* index = position in the list
     [] OTHER -> << "unknown-request", q >>
 
 -----------------------------------------------------------------------------
@@ -328,17 +329,17 @@ Code(I, c, q, arg) ==
    in a list are two EQUAL objects (same blocks), which must still be two parameters groups. *)
 SymObj(x) ==
   [cls |-> x.cls, reg |-> x.reg, p |-> x.p, c |-> x.c,
-   M |-> [t \in 1 .. NRows |-> [c \in 1 .. x.p |-> 10 * x.c + 3 * t + c]],
-   B |-> [t \in 1 .. NRows |-> [c \in 1 .. x.p |-> 5 * x.c - 2 * t + c * c]],
-   H |-> IF x.reg = "none" THEN ZeroMat(x.p, x.p)
-         ELSE [a \in 1 .. x.p |-> [b \in 1 .. x.p |-> IF a = b THEN 20 + x.c + a ELSE x.c + a + b]],
+   M |-> Mat(NRows, x.p, LAMBDA t, c : 10 * x.c + 3 * t + c),
+   B |-> Mat(NRows, x.p, LAMBDA t, c : 5 * x.c - 2 * t + c * c),
+   H |-> IF x.reg = "none" THEN Mat(x.p, x.p, LAMBDA a, b : 0)
+         ELSE Mat(x.p, x.p, LAMBDA a, b : IF a = b THEN 20 + x.c + a ELSE x.c + a + b),
    edge |-> IF IsSub(x.cls, "AbstractMapper") THEN << 0, x.p - 1 >> ELSE << >>,
-   wts |-> IF x.reg = "none" THEN ZeroVec(x.p) ELSE [a \in 1 .. x.p |-> 10 * x.c + a]]
+   wts |-> IF x.reg = "none" THEN TLCEval(ZeroVec(x.p)) ELSE TLCEval([a \in 1 .. x.p |-> 10 * x.c + a])]
 InstOf(l) ==
-  LET objs == [k \in 1 .. Len(l) |-> SymObj(l[k])]
+  LET objs == TLCEval([k \in 1 .. Len(l) |-> SymObj(l[k])])
       tot == Pre(objs, Len(l))
-  IN [n |-> NRows, objs |-> objs, w |-> [t \in 1 .. NRows |-> t], d |-> [t \in 1 .. NRows |-> 50 * t + 1], g |-> 2, eps |-> 7,
-      s |-> [k \in 1 .. tot |-> 2 * k + (k % 3) - 4], S |-> 1, exact |-> TRUE, zpix |-> << 0 >>]
+  IN [n |-> NRows, objs |-> objs, w |-> TLCEval([t \in 1 .. NRows |-> t]), d |-> TLCEval([t \in 1 .. NRows |-> 50 * t + 1]), g |-> 2, eps |-> 7,
+      s |-> TLCEval([k \in 1 .. tot |-> 2 * k + (k % 3) - 4]), S |-> 1, exact |-> TRUE, zpix |-> << 0 >>]
 
 RECURSIVE ListsOfLen(_)
 ListsOfLen(len) == IF len = 0 THEN { << >> } ELSE { Append(l, x) : l \in ListsOfLen(len - 1), x \in Alphabet }
@@ -362,12 +363,12 @@ Build == /\ Rebuilds /\ nreads > 0
          /\ nreads' = 0 /\ out' = NoOut
 
 Read == /\ nreads < MaxReads
-        /\ \E rq \in ReadSet :
-             LET I == InstOf(lst)
-                 v == Get(I, cache, rq.q, rq.arg)
-                 new == (Closure(rq.q) \cap CachedNames) \ DOMAIN cache
-             IN /\ out' = [q |-> rq.q, arg |-> rq.arg, v |-> v]
-                /\ cache' = cache @@ [x \in new |-> Get(I, cache, x, "")]
+        /\ LET I == InstOf(lst)
+           IN \E rq \in ReadSet :
+                LET v == Get(I, cache, rq.q, rq.arg)
+                    new == (Closure(rq.q) \cap CachedNames) \ DOMAIN cache
+                IN /\ out' = [q |-> rq.q, arg |-> rq.arg, v |-> v]
+                   /\ cache' = cache @@ [x \in new |-> IF x = rq.q THEN v ELSE Get(I, cache, x, "")]
         /\ nreads' = nreads + 1
         /\ UNCHANGED lst
 
@@ -422,6 +423,6 @@ MappedDataIsSumOfParts ==
               /\ Code(I, NoCache, "mapping_matrix", "") = MMof(T)
 \* whatever was read before, and on whichever inversion, a read returns what the statement pins
 ReadsAreOrderIndependent == out.q # "none" => out.v = Want(Tab(InstOf(lst)), out.q, out.arg, "")
-CacheHoldsMeaning == \A x \in DOMAIN cache : cache[x] = Want(Tab(InstOf(lst)), x, "", "")
+CacheHoldsMeaning == DOMAIN cache # {} => LET T == Tab(InstOf(lst)) IN \A x \in DOMAIN cache : cache[x] = Want(T, x, "", "")
 TypeOK == lst \in Lists /\ DOMAIN cache \subseteq CachedNames /\ nreads \in 0 .. MaxReads
 =============================================================================
